@@ -30,6 +30,8 @@ var sweepPool = []string{
 	"(1.bear:5.bear)", "(\"a\".bear:\"c\")", "[[1, 2].bear, [3].bear]", "[{a: 1}.bear, {a: 2}]", "[1, 2, 3, 4, 5, 6, 7]",
 	// non-finite and extreme floats (they cannot be written as literals)
 	"\"NaN\".F", "\"Inf\".F", "\"-Inf\".F", "((-1.0) ** 0.5)", "1.0e300", "1.0e-300", "(0.0 * -1.0)", "9.3e18", "%{[1]: 1}", "%{[2]: 1}", "%{[1]: 1, 2: 3}", "%{{a: 1}: 2}",
+	// ranges with omitted bounds
+	"(:3)", "(:2:-1)", "(2:)", "(::2)", "(nil:3:1)", "(\"a\":)",
 }
 
 // consumers of a result: the constructs that destructure a value with type assertions of their own
@@ -106,6 +108,12 @@ func snapshot(env *object.Env) map[object.PanObject]string {
 			seen[o] = fmt.Sprintf("int:%d proto=%p", v.Value, v.Proto())
 		case *object.PanFloat:
 			seen[o] = fmt.Sprintf("float:%v", v.Value)
+		case *object.PanFunc:
+			// the parameters and defaults a function value was created with (its scope is not part of the value;
+			// an iterator's scope is replaced by `recur` on purpose)
+			if v.FuncWrapper != nil {
+				seen[o] = fmt.Sprintf("func:%d:%s:%s:%s", v.FuncKind, safeInspect(v.Args()), safeInspect(v.Kwargs()), v.FuncWrapper.String())
+			}
 		case *object.PanRange:
 			seen[o] = fmt.Sprintf("range:%p:%p:%p", v.Start, v.Stop, v.Step)
 			walk(v.Start, depth+1)
@@ -294,7 +302,22 @@ func runSweep(c *Ctx, mode string) {
 	// alias probes (C06): the same receiver used twice in a row with small fresh arguments, both results kept: a result that
 	// was built inside the receiver's (or the first result's) spare capacity is overwritten by the second call
 	if mode == "C06" {
-		recvs := []string{"[1]", "[1, 2]", "[1, 2, 3]", "[1, 2, 3, 4, 5]", "[1, 2, 3] + [4]", "[1, 2, 3, 4, 5, 6][1:4]", "[[1], [2], [3]]", "(1:4).A",
+		// closures made from one literal evaluated several times: the earlier closures are existing values
+		for fi, fs := range []string{"{|n| {|x, step: n| x + step}}", "{|n| m{|x, k: [n]| [self, x, k]}}", "{|n| {|a, b: n * 2, c: \"s\" + n.S| [a, b, c]}}",
+			"{|n| <{|i, lim: n| yield i if i < lim; recur(i + 1)}>}", "{|n| {f: {|x, d: n| x + d}, n: n}}", "{|n| [{|x: n| x}, {|y: n + 1| y}]}"} {
+			if !c.Mine() {
+				continue
+			}
+			if o := c.It.RunIn(env, fmt.Sprintf("mk%d := %s\nfa%d := mk%d(1)\nfb%d := mk%d(2)", fi, fs, fi, fi, fi, fi), "", defaultFuel); o.Kind != "val" {
+				continue
+			}
+			forced = true
+			for _, probe := range []string{"mk%d(5)", "mk%d(7)", "fa%d.kwargs", "fb%d.args", "fa%d", "mk%d(9)"} {
+				call(fmt.Sprintf(probe, fi), "closure-factory")
+			}
+			forced = false
+		}
+		recvs := []string{"(:3)", "(:2:-1)", "[1]", "[1, 2]", "[1, 2, 3]", "[1, 2, 3, 4, 5]", "[1, 2, 3] + [4]", "[1, 2, 3, 4, 5, 6][1:4]", "[[1], [2], [3]]", "(1:4).A",
 			"{a: 1}", "{a: 1, b: 2, c: 3}", "%{1: 2}", "%{1: 2, [3]: 4}", "\"abc\"", "{a: 1}.bear({b: 2})", "[1, 2, 3].bear", "Arr.bear.new([1, 2, 3])"}
 		args := []string{"[101]", "[102]", "[103, 104]", "{q: 1}", "{r: 2}", "%{9: 9}", "%{8: 8}", "1", "2", "\"x\"", "\"y\"", "[]", "nil"}
 		for ri, rs := range recvs {
